@@ -1,7 +1,7 @@
 (* C02 correspondence: spin<->binary conversions and edits through live views. *)
 From Coq Require Import List ZArith QArith Qcanon Bool Arith.
 From Dimod Require Import Base.Util Model.Poly Model.HPoly Model.View Model.Penalty Model.ViewOps Model.HPolyPy.
-From Dimod Require Model.Adj Model.AdjSubstAll Model.IsingQubo Model.SSet Model.SSetVartype Model.PyBqm Gen.Gen_PyBQM Model.Expr Model.VartypeOps Model.IsingQuboGen Model.FlipMarks.
+From Dimod Require Model.Adj Model.AdjSubstAll Model.IsingQubo Model.SSet Model.SSetVartype Model.PyBqm Gen.Gen_PyBQM Model.Expr Model.VartypeOps Model.IsingQuboGen Model.FlipMarks Gen.Gen_VartypeLoops Model.VartypeLoopsGen.
 Import ListNotations.
 Open Scope Qc_scope.
 
@@ -163,10 +163,15 @@ Definition check (c : case) : bool :=
   | QmS2B before after =>
       Adj.inv_b (VartypeOps.q_m before)
       && opt_eqb VartypeOps.qmi_eqb (VartypeOps.qm_spin_to_binary before) (Some after)
+      (* the same loop over the domain / vartypes generated from quadratic_model.py *)
+      && opt_eqb VartypeOps.qmi_eqb (VartypeLoopsGen.qm_stb_loop Gen_VartypeLoops.gen_qm_stb_loop before) (Some after)
   | CqmCv target v before after =>
       opt_eqb VartypeOps.vo_cqm_eqb (option_map norm_marks (VartypeOps.cqm_change_vartype target v before)) after
   | CqmS2B before after =>
       opt_eqb VartypeOps.vo_cqm_eqb (option_map norm_marks (VartypeOps.cqm_spin_to_binary before)) (Some after)
+      (* the same loop over the domain / vartypes generated from constrained.py *)
+      && opt_eqb VartypeOps.vo_cqm_eqb
+           (option_map norm_marks (VartypeLoopsGen.cqm_stb_loop Gen_VartypeLoops.gen_cqm_stb_loop before)) (Some after)
   | Flip n vt v before after =>
       match FlipMarks.py_flip_variable vt v (obs_poly before) with
       | Some p => poly_coeff_eqb n p (obs_poly after)
